@@ -291,6 +291,7 @@ void vh_nontrivial(uint64_t h) {
 }
 void vh_nontrivial_distinct(void) { S->nontrivial_by_construction++; }
 
+uint64_t vh_violation_count(void) { return S->viol_total; }
 void vh_violation(const char* key, const char* fmt, ...) {
   S->viol_total++;
   char cname[NAME_LEN];
